@@ -56,6 +56,16 @@ CHECKS = {
         text="Explicit-state exploration where the state is the history of expansions already performed in the process; the invariant is byte equality with the empty-history expansion. Process-level repetition covers what a history cannot (hash seeds).",
         note="Trusted: that the in-process seam returns the same tokens the proc-macro hands to rustc (checked by the thorough tier through -Zunpretty=expanded). Hash seeds cannot be enumerated; a RandomState-style regression is caught with probability 1-2^-M per hashed collection.",
         design_ref="DESIGN.md §3 C19", engine="inproc"),
+    "C02": dict(
+        technique="bounded exhaustive enumeration of (literal, argument list) pairs generated from their AST (placeholder = argument reference x spec; 1-2 segments with text/escapes; 8 argument templates incl. aliases, shadowing, width/precision and .* arguments, self) over unit/tuple/named shapes for all 9 traits, each as a variant/struct attribute compiled with the real proc-macro; for the full product of 3 values per field the derived text is compared with an independently built format! call",
+        text="Small-scope exhaustive exploration with std's own format! as the reference: the same literal and arguments evaluated outside the derive under the statement's binding rule (references inside argument expressions, the fields themselves inside the literal).",
+        note="Trusted: rustc/std format!; the generator's binding scopes. Not explored: literals with more than two varying segments, more than 3 fields, field types other than &'static i32 / f64.",
+        design_ref="DESIGN.md §3 C02", engine="compile"),
+    "C03": dict(
+        technique="exhaustive enumeration (BFS by length) of all strings up to length 4 (5 thorough) over a 31-symbol alphabet incl. 2/3/4-byte characters, all single-placeholder bodies, every derivation of the std::fmt grammar from per-slot alphabets (73,728 quick / 4.2M thorough), one-edit neighbours and piece sequences; each string parsed by the working tree's literal parser in-process and by rustc's own rustc_parse_format (nightly), and the derive's view (implicit counter, traits, transparency, never-silently-accepted in 8 attribute positions) read off real expansions; the reference is bound to the stable toolchain's format! on every disagreement class",
+        text="Exhaustive short-string / grammar-derivation exploration against the implementation std itself uses. Two residual classes are known findings with predicates that do not depend on the subject's output.",
+        note="Trusted: rustc_parse_format of the installed nightly == std::fmt's grammar (cross-checked with stable format! on 27 literals covering all classes); the probe type's argument naming. Strings longer than the bound and alphabets outside the 31 symbols are not explored.",
+        design_ref="DESIGN.md §3 C03", engine="inproc (nightly, rustc_private)"),
 }
 
 PENDING = ["C01", "C02", "C03", "C04", "C05", "C06", "C07", "C08", "C09", "C10", "C11", "C13", "C14", "C15", "C16",
